@@ -109,12 +109,35 @@ pub fn run(tier: Tier) -> i32 {
     rep.count("sharing_projects", n_sharing);
     let n_groups = group_states(&rep, &scratch, &keys_total);
     rep.count("group_state_projects", n_groups);
+    // literal kinds mixed across locales: a key that is a number / bool / float in one locale and a string (or an
+    // interpolation) in the others - every string among them must still be in its locale's table, at its index
+    {
+        let lits = |tag: &str| -> Vec<Val> { vec![Val::UInt(0), Val::Bool(true), Val::Float("1.5".into()), Val::Int(-3), st(&format!("[{tag}] gratuit")), s(vec![text(&format!("[{tag}] ")), var("x")]), Val::Null] };
+        let n = lits("").len();
+        let triples = vmodel::enumerate::tuples(n, 3);
+        par_for(triples.len(), |w, i| {
+            let t = &triples[i];
+            if t[0] == n - 1 {
+                return; // the default locale cannot hold null
+            }
+            let locs = ["en", "fr", "de"];
+            let mut p = Project::new(Config::simple("en", &locs));
+            for (li, l) in locs.iter().enumerate() {
+                let v = lits(l)[t[li]].clone();
+                let nested = lits(&format!("{l}.g"))[t[(li + 1) % 3].min(n - 2)].clone();
+                p.set_file(None, l, vec![("first".into(), st(&format!("[{l}.first]"))), ("k".into(), v), ("g".into(), Val::Sub(vec![("k".into(), if li == 0 && nested == Val::Null { st("x") } else { nested })])), ("last".into(), st(&format!("[{l}.last]")))]);
+            }
+            check_project(rep_ref(&rep), "C11", "literal-mix", &p, &scratch.worker(w), &keys_total);
+            rep.eval(1);
+        });
+        rep.count("literal_mix_projects", triples.len() as u64);
+    }
     rep.nontriv(strings.len() as u64);
     rep.count("single_scalar_strings", n_single as u64);
     rep.sample(json!({"strings": strings.iter().skip(0x20).take(4).collect::<Vec<_>>()}));
     rep.sample(json!({"strings": strings.iter().skip(n_single).take(4).map(|s| s.escape_unicode().to_string()).collect::<Vec<_>>()}));
     let mut cov = serde_json::Map::new();
-    cov.insert("rule".into(), json!(format!("every Unicode scalar value as a one-character translation (quick: all below U+3000, every 7th above, surrogate-gap and plane-16 edges; thorough: all 1 112 064), all 196 two-character strings over {:?} and 14 four-character mixes, {chunk} per project; plus every assignment of {{3 shared strings, an interpolation built from two of them, null}} to 2 keys (one nested) in 3 locales (thorough: 4), with and without an inherits entry, with one or two namespaces (the same literal in several locales, in several keys, across namespaces); every combination, over 4 locales, of a subkey group being written / written with other texts / null / absent per non-default locale x a table-size difference per locale x an inherits entry (sizes recorded for nested sub-locales must follow the locale they belong to); layouts: two locales (reversed assignment, explicit nulls, interpolations repeating the string) and nested subkeys + two namespaces + a cross-namespace foreign key duplicating strings; JSON build also writes every non-ASCII char as \\\\uXXXX escapes (surrogate pairs); oracle: every Literal::String(s,i) reachable from a locale's keys has i < strings.len() and strings[i]==s, top_locale_string_count==strings.len() in the top locale and every nested sub-locale, table of en == the literal set, rendered text == source", NASTY.iter().map(|c| c.escape_unicode().to_string()).collect::<Vec<_>>())));
+    cov.insert("rule".into(), json!(format!("every Unicode scalar value as a one-character translation (quick: all below U+3000, every 7th above, surrogate-gap and plane-16 edges; thorough: all 1 112 064), all 196 two-character strings over {:?} and 14 four-character mixes, {chunk} per project; plus every assignment of {{3 shared strings, an interpolation built from two of them, null}} to 2 keys (one nested) in 3 locales (thorough: 4), with and without an inherits entry, with one or two namespaces (the same literal in several locales, in several keys, across namespaces); every combination, over 4 locales, of a subkey group being written / written with other texts / null / absent per non-default locale x a table-size difference per locale x an inherits entry (sizes recorded for nested sub-locales must follow the locale they belong to); every assignment of 7 literal kinds (unsigned, bool, float, negative, string, interpolation, null) to one key (and a nested one) in 3 locales; layouts: two locales (reversed assignment, explicit nulls, interpolations repeating the string) and nested subkeys + two namespaces + a cross-namespace foreign key duplicating strings; JSON build also writes every non-ASCII char as \\\\uXXXX escapes (surrogate pairs); oracle: every Literal::String(s,i) reachable from a locale's keys has i < strings.len() and strings[i]==s, top_locale_string_count==strings.len() in the top locale and every nested sub-locale, table of en == the literal set, rendered text == source", NASTY.iter().map(|c| c.escape_unicode().to_string()).collect::<Vec<_>>())));
     cov.insert("exhaustive".into(), json!(tier == Tier::Thorough));
     cov.insert("front_end".into(), json!(build_format().name()));
     cov.insert("key_locale_comparisons".into(), json!(*keys_total.lock().unwrap()));
@@ -125,6 +148,10 @@ pub fn run(tier: Tier) -> i32 {
 /// Every way literal text can be shared between keys, locales and namespaces: each (locale, key)
 /// slot takes one of 5 values over a 3-string alphabet. The generic judge checks every index
 /// against the table of the locale it belongs to and the rendered text of every key.
+fn rep_ref(r: &Reporter) -> &Reporter {
+    r
+}
+
 fn sharing(rep: &Reporter, scratch: &Scratch, tier: Tier, keys_total: &Mutex<u64>) -> u64 {
     let value = |d: usize| -> Val {
         match d {
